@@ -94,7 +94,55 @@ impl Minimizer {
         cur
     }
 
+    /// Long histories: remove the unjudged filler calls in halves, quarters, ... before
+    /// anything is tried call by call.
+    fn pass_fillers(&mut self, cur: &mut Plan) {
+        for t in 0..cur.threads.len() {
+            let nwarm = cur.threads[t].iter().filter(|c| c.warm).count();
+            if nwarm < 8 {
+                continue;
+            }
+            // all of them at once
+            let mut c = cur.clone();
+            c.threads[t].retain(|x| !x.warm);
+            if self.try_accept(cur, c) {
+                continue;
+            }
+            let mut chunk = nwarm / 2;
+            while chunk >= 4 {
+                let mut start = 0;
+                loop {
+                    let idx: Vec<usize> = cur.threads[t]
+                        .iter()
+                        .enumerate()
+                        .filter(|(_, x)| x.warm)
+                        .map(|(i, _)| i)
+                        .collect();
+                    if start >= idx.len() {
+                        break;
+                    }
+                    let drop: Vec<usize> = idx[start..(start + chunk).min(idx.len())].to_vec();
+                    let mut c = cur.clone();
+                    let mut k = 0;
+                    c.threads[t].retain(|_| {
+                        let keep = !drop.contains(&k);
+                        k += 1;
+                        keep
+                    });
+                    if !self.try_accept(cur, c) {
+                        start += chunk;
+                    }
+                    if self.evals >= self.budget {
+                        return;
+                    }
+                }
+                chunk /= 2;
+            }
+        }
+    }
+
     fn pass_structure(&mut self, cur: &mut Plan) {
+        self.pass_fillers(cur);
         // sequential instead of interleaved
         if cur.shuttle {
             let mut c = cur.clone();
@@ -134,6 +182,10 @@ impl Minimizer {
             while k > 0 {
                 k -= 1;
                 if k >= cur.threads[t].len() {
+                    continue;
+                }
+                if cur.threads[t][k].warm && cur.threads[t].len() > 40 {
+                    // fillers of a long history were removed in chunks (pass_fillers)
                     continue;
                 }
                 let mut c = cur.clone();
